@@ -592,7 +592,7 @@ pub fn property() -> Property {
     Property {
         id: "C19",
         level: "exploration",
-        rule: "generated: 1-24 typed-core rules (field-on-the-left atoms, trees to depth 3) with 1-4 salience levels (ties), ~1/8 disabled, stores with nested objects; max_threads 1..16, min_rules_per_thread 1..4, parallelism on (5/6) and off; each configuration executed 12x (quick) / 60x (thorough) with the H5 schedule-point hook yielding/spinning/sleeping pseudo-randomly inside the worker loop. Oracle: the call returns (monitor watchdog); exactly one execution context per enabled rule; the (rule, fired) map and both counters equal the sequential path of the same engine (enabled=false); total_rules_fired equals the number of fired contexts; the sequential verdict equals REF where REF is defined and all left-hand fields are present. Non-trivial: >= 2 salience levels and a level that is split into >= 2 chunks containing both firing and non-firing rules; distinct by (program, store, config). Part `writers`: 3-16 rules on 2-4 levels of which about a third (never on the lowest level) have an action calling a registered function mark<k> that writes the fact W.k<k> = true, and rules at a STRICTLY lower salience than every writer of a flag read it (positively or negated, alone or and/or-ed with a generated condition); fresh facts for every execution; 10x/40x per configuration; oracle as above plus: the flags found in the caller's facts after the call equal the sequential path's, and the sequential verdicts equal a level-by-level model (REF on a store that receives the fired writers' flags after each level). Non-trivial there: a writer fired inside a level that is handed to worker threads and some judged rule's verdict differs between the initial store and the store it was evaluated on.",
+        rule: "generated: 1-24 typed-core rules (field-on-the-left atoms, trees to depth 3) with 1-4 salience levels (ties), ~1/8 disabled, stores with nested objects; max_threads 1..16, min_rules_per_thread 1..4, parallelism on (5/6) and off; each configuration executed 12x (quick) / 60x (thorough) with the H5 schedule-point hook yielding/spinning/sleeping pseudo-randomly inside the worker loop. Oracle: the call returns (monitor watchdog); exactly one execution context per enabled rule; the (rule, fired) map and both counters equal the sequential path of the same engine (enabled=false); total_rules_fired equals the number of fired contexts; the sequential verdict equals REF where REF is defined and all left-hand fields are present. Non-trivial: >= 2 salience levels and a level that is split into >= 2 chunks containing both firing and non-firing rules; distinct by (program, store, config). Part `writers`: 3-16 rules on 2-4 levels of which about a third (never on the lowest level) have an action calling a registered function mark<k> that writes the fact W.k<k> = true, and rules at a STRICTLY lower salience than every writer of a flag read it (positively or negated, alone or and/or-ed with a generated condition); fresh facts for every execution; 10x/40x per configuration; oracle as above plus: the flags found in the caller's facts after the call equal the sequential path's, and the sequential verdicts equal a level-by-level model (REF on a store that receives the fired writers' flags after each level). Non-trivial there: a writer fired inside a level that is handed to worker threads and some judged rule's verdict differs between the initial store and the store it was evaluated on. Every second case (by rule count) additionally runs two threads that call execute_parallel on the SAME engine at the same time (3 calls each, 6 in thorough; own copies of the facts): every call must report exactly the one-by-one verdicts and counters.",
         assumptions: vec![
             "thread schedules are sampled by the OS plus the yield hook, not enumerated (DESIGN.md §8)".into(),
             "part random registers no custom functions, so its actions do not change facts (by reading execute_action_parallel); part writers changes facts only through registered functions whose readers sit at a strictly lower salience than every writer, so the one-by-one result does not depend on the order inside a level".into(),
